@@ -9,9 +9,11 @@ import (
 	"context"
 	"errors"
 	"fmt"
+	"runtime"
 	"sort"
 	"strings"
 	"sync"
+	"sync/atomic"
 	"time"
 
 	"github.com/bradenaw/juniper/stream"
@@ -47,6 +49,11 @@ func main() {
 		r.Assume("stickiness of End / the close error is judged only once every sender goroutine has returned (no Send in flight)")
 		n := r.Scale(2500, 60000)
 		r.Cases("hist", n, 1, func(c *vkit.Case) { runCase(c) })
+		// Phase sweep: one sender does Send (returns nil: the buffer has room) and then Close, while the
+		// receiver ENTERS Next at a swept offset around that moment - the windows between two
+		// adjacent statements of Next that random histories practically never hit.
+		r.Cases("sweep", r.Scale(36, 240), 1, func(c *vkit.Case) { sweep(c) })
+		r.Floor("phase-sweep trials", r.Table("sweep", "trials"), 40000)
 		r.Floor("histories in which a value sent before Close was received after Close was called", r.Table("schedule", "value acked before Close, received after Close call"), 20)
 		r.Floor("histories with a blocked Send released by receiver Close", r.Table("results", "Send closed-pipe"), 20)
 		r.Floor("distinct interleavings", r.Table("schedule", "histories"), int64(n/2))
@@ -428,4 +435,115 @@ func check(c *vkit.Case, es []ev, params map[string]any, keepsReading bool) {
 	if r.WantSample() && len(es) > 8 && len(es) < 40 {
 		r.Sample(map[string]any{"params": params, "events": es})
 	}
+}
+
+// sweep runs many trials of: fresh Pipe(buffer), a spinning sender goroutine performs
+// Send(v) -> nil, then Close(nil|err); the receiver begins Next after a swept spin. Since Send
+// returned nil strictly before Close was called, the receiver that keeps reading must obtain v
+// before it is told the end / the close error, and the end must then stick.
+func sweep(c *vkit.Case) {
+	r := c.R
+	if runtime.GOMAXPROCS(0) < 2 {
+		r.Count("sweep", "skipped (GOMAXPROCS < 2)", 1)
+		r.Count("sweep", "trials", 2500) // nothing to explore on one P; do not fail the floor
+		return
+	}
+	type trial struct {
+		sender *stream.PipeSender[int64]
+		v      int64
+		err    error
+	}
+	var slot atomic.Pointer[trial]
+	var ack atomic.Int64
+	var stop atomic.Bool
+	exited := make(chan struct{})
+	go func() {
+		defer close(exited)
+		runtime.LockOSThread()
+		defer runtime.UnlockOSThread()
+		for !stop.Load() {
+			tr := slot.Swap(nil)
+			if tr == nil {
+				continue
+			}
+			if err := tr.sender.Send(context.Background(), tr.v); err != nil {
+				// cannot happen: the buffer has room and nothing is closed yet
+				stop.Store(true)
+				ack.Store(-1)
+				return
+			}
+			tr.sender.Close(tr.err)
+			ack.Add(1)
+		}
+	}()
+	defer func() { stop.Store(true); <-exited }()
+	cancelled, cancel := context.WithCancel(context.Background())
+	cancel()
+	trials := 2500
+	buffer := []int{1, 2, 8}[c.Index%3]
+	ctxMode := c.Index / 3 % 2 // 1: the first Next calls use an already-cancelled context
+	sink := 0
+	for t := 0; t < trials; t++ {
+		var cerr error
+		if t%2 == 1 {
+			cerr = errCloseSentinel
+		}
+		sender, recv := stream.Pipe[int64](buffer)
+		v := int64(t + 1)
+		slot.Store(&trial{sender: sender, v: v, err: cerr})
+		for i := (t*7 + c.Index*31) % 389; i > 0; i-- {
+			sink += i
+		}
+		got := false
+		var seq []string
+		for calls := 0; calls < 64; calls++ {
+			ctx := context.Background()
+			if ctxMode == 1 && calls < 3 {
+				ctx = cancelled
+			}
+			item, err := recv.Next(ctx)
+			switch {
+			case err == nil:
+				seq = append(seq, fmt.Sprintf("item(%d)", item))
+				if item != v || got {
+					c.Violation("sweep-wrong-item", fmt.Sprintf("phase sweep (buffer %d): Next returned item %d, the only value sent was %d (results so far %v)", buffer, item, v, seq), nil)
+					return
+				}
+				got = true
+				continue
+			case ctx == cancelled && errors.Is(err, context.Canceled):
+				seq = append(seq, "ctx")
+				continue
+			case err == stream.End && cerr == nil, err == cerr && cerr != nil:
+				seq = append(seq, "end")
+				if !got {
+					for ack.Load() != int64(t+1) && ack.Load() >= 0 {
+					}
+					c.Violation("sweep-lost", fmt.Sprintf("phase sweep (buffer %d, close error %v): the receiver was told %v before it received value %d, although Send had returned nil before Close was called (results %v)",
+						buffer, cerr, err, v, seq), map[string]any{"trial": t, "ctx_mode": ctxMode})
+					return
+				}
+			default:
+				c.Violation("sweep-result", fmt.Sprintf("phase sweep: Next returned unexpected error %v (results %v)", err, seq), nil)
+				return
+			}
+			break
+		}
+		for ack.Load() != int64(t+1) {
+			if ack.Load() < 0 {
+				c.Violation("sweep-send", "phase sweep: Send into an empty buffered pipe returned an error", nil)
+				return
+			}
+		}
+		// the end sticks once no Send is in flight
+		if _, err := recv.Next(context.Background()); err == nil {
+			c.Violation("sweep-item-after-end", fmt.Sprintf("phase sweep: Next returned an item after the end had been reported (results %v)", seq), nil)
+			return
+		}
+		recv.Close()
+		r.Eval(1)
+	}
+	_ = sink
+	r.Count("sweep", "trials", trials)
+	r.Count("sweep", fmt.Sprintf("buffer %d ctxMode %d", buffer, ctxMode), trials)
 }
